@@ -14,6 +14,7 @@ import os
 import pathlib
 import random
 import re
+import shutil
 import sys
 import time
 import warnings
@@ -63,7 +64,14 @@ class FakeExecutor:
 
         self.futures, self.ran = [], 0
         self._lock = threading.RLock()
-        self._timer = None
+        self._helper, self._last, self._closed = None, 0.0, False
+
+    def _idle_drain(self):
+        while not self._closed:
+            time.sleep(0.02)
+            if time.monotonic() - self._last >= 0.02:
+                self._drain()
+                return
 
     def submit(self, fn, /, *args, **kwargs):
         import threading
@@ -72,12 +80,11 @@ class FakeExecutor:
         self.futures.append(f)
         # a caller that blocks in concurrent.futures.as_completed / wait never asks a future for its result, so the
         # tasks must also complete on their own: once no task has been submitted for a moment they are run (in the
-        # chosen completion order) on a helper thread
-        if self._timer is not None:
-            self._timer.cancel()
-        self._timer = threading.Timer(0.02, self._drain)
-        self._timer.daemon = True
-        self._timer.start()
+        # chosen completion order) on a helper thread (one per executor)
+        self._last = time.monotonic()
+        if self._helper is None or not self._helper.is_alive():
+            self._helper = threading.Thread(target=self._idle_drain, daemon=True)
+            self._helper.start()
         return f
 
     def map(self, fn, *iterables, timeout=None, chunksize=1):
@@ -101,6 +108,7 @@ class FakeExecutor:
 
     def shutdown(self, wait=True, cancel_futures=False):
         self._drain()
+        self._closed = True
 
     def __enter__(self):
         return self
@@ -158,7 +166,7 @@ def canon_image(names, lines):
     return {"names": list(names), "shape": shape, "lines": lines}
 
 
-def impl_result(data, params):
+def impl_result(data, params, bits=False):
     import numpy as np
 
     names = list(data.dtype.names or [])
@@ -167,6 +175,9 @@ def impl_result(data, params):
     lines = [[[core.orat(float(data[n][k, j])) for n in names] for j in range(data.shape[1])] for k in range(data.shape[0])]
     img = canon_image(names, lines)
     img["shape"] = list(data.shape)
+    if bits:  # the bit pattern of every value (sign of zero): see C04.written_bits
+        img["bits"] = [[["nan" if math.isnan(float(data[n][k, j])) else float(data[n][k, j]).hex() for n in names]
+                        for j in range(data.shape[1])] for k in range(data.shape[0])]
     p = {}
     for k, v in params.items():
         vs = list(v) if isinstance(v, (tuple, list, np.ndarray)) else [v]
@@ -200,6 +211,14 @@ def blank(res, und):
         if k in p and i < len(p[k]):
             p[k][i] = "~"
     return {**res, "params": p}
+
+
+HISTORY_SHARE = 0.17  # of the generated cases: histories of 2-4 calls, every call judged
+KEPT_MTIME_NS = 1_600_000_000 * 10 ** 9  # the instant "kept" modification times are set to
+
+
+def OPTION_CLASS(pcsv, vendor):
+    return {"nu": pcsv.NuOption, "ldr": pcsv.ThermoLDROption, "tofwerk": pcsv.TofwerkOption, "generic": pcsv.GenericOption}[vendor]
 
 
 PATTERNS = {"nu": r"line_\d+\.csv", "ldr": r"\w*_ldr_\d+\.csv", "tofwerk": r"\w+?([0-9.]+-\d\dh\d\dm\d\ds).*\.csv",
@@ -251,8 +270,11 @@ class C04(Prop):
 
     # ------------------------------------------------------------------ generation
     def generate(self, rng, tier):
-        if rng.random() < 0.08:
+        k = rng.random()
+        if k < 0.08:
             return self.gen_names(rng)
+        if k < 0.08 + HISTORY_SHARE:
+            return gen_csvdir.gen_history(rng, tier)
         return gen_csvdir.generate(rng, tier)
 
     def gen_names(self, rng):
@@ -359,23 +381,54 @@ class C04(Prop):
             yield {"kind": "names", "names": [f"I_{gen_csvdir.stamp(date, s)}.csv" for s in range(0, 86400, step)]}
 
     # ------------------------------------------------------------------ evaluation
-    def evaluate(self, case, ctx):
-        if case["kind"] == "names":
-            return self.eval_names(case, ctx)
-        import pewlib.io.csv as pcsv
-
-        vendor, entries = case["vendor"], case["entries"]
-        d = ctx.tmpdir() / "lines"
-        d.mkdir()
-        gen_csvdir.write_dir(d, case)
-        dentries = []
+    @staticmethod
+    def driver_entries(entries):
+        out = []
         for e in entries:
             if e["role"] == "line":
-                dentries.append({"name": e["name"], "isFile": True, "names": e["names"],
-                                 "rows": [[core.orat(gen_csvdir.value_of(t)) for t in r] for r in e["rows"]]})
+                out.append({"name": e["name"], "isFile": True, "names": e["names"],
+                            "rows": [[core.orat(gen_csvdir.value_of(t)) for t in r] for r in e["rows"]]})
             else:
+                out.append({"name": e["name"], "isFile": e["type"] == "file", "names": [], "rows": []})
+        return out
+
+    @staticmethod
+    def written_bits(ctx, vendor, entries, pi):
+        """'every value exactly as written', to the bit: the specification (and the mechanism model) evaluated on CELL
+        IDENTITIES instead of values - every non-NaN cell of the written tables gets its own number - says for each cell of
+        the result which written token it must be; the canonical form is float(token).hex() (keeps the sign of a zero,
+        which the exact rationals of the main comparison cannot)"""
+        ids, dentries = {}, []
+        for e in entries:
+            if e["role"] != "line":
                 dentries.append({"name": e["name"], "isFile": e["type"] == "file", "names": [], "rows": []})
-        rep = ctx.driver.call("c04.load", vendor="auto" if case["auto"] else vendor, entries=dentries, pi=case["pi"])
+                continue
+            rows = []
+            for r in e["rows"]:
+                row = []
+                for t in r:
+                    v = gen_csvdir.value_of(t)
+                    if math.isnan(v):
+                        row.append(None)
+                    else:
+                        ids[len(ids) + 1] = v
+                        row.append(len(ids))
+                rows.append(row)
+            dentries.append({"name": e["name"], "isFile": True, "names": e["names"], "rows": rows})
+        rep = ctx.driver.call("c04.cells", vendor=vendor, entries=dentries, pi=pi)
+
+        def bits(r):
+            if "raises" in r:
+                return None
+            return [[["nan" if c is None else float(ids[int(core.unrat(c))]).hex() for c in row] for row in line] for line in r["image"]["lines"]]
+        return bits(rep["model"]), bits(rep["spec"])
+
+    def import_once(self, pcsv, ctx, d, dirc, call, option, pi, tz):
+        """one judged call of load(d, ..., full=True) on the directory `dirc` as it is on disk at `d`:
+        -> (impl, model, spec, rep, data, params)"""
+        vendor, entries = dirc["vendor"], dirc["entries"]
+        auto = call in ("auto", "detected")
+        rep = ctx.driver.call("c04.load", vendor="auto" if auto else vendor, entries=self.driver_entries(entries), pi=pi)
         lines = [e["name"] for e in entries if e["role"] == "line"]
         if sorted(rep["accepted"]) != sorted(lines):
             raise InternalError(f"generator: accepted {rep['accepted']} != line files {lines}")
@@ -384,9 +437,50 @@ class C04(Prop):
         model, und = driver_result(rep["model"])
         spec, und2 = driver_result(rep["spec"])
         und |= und2
+        negzero = any(t.lstrip().startswith("-") and gen_csvdir.value_of(t) == 0.0 for e in entries if e["role"] == "line"
+                      for r in e["rows"] for t in r)
+        if negzero:
+            mb, sb = self.written_bits(ctx, rep["vendor"], entries, pi)
+            if "image" in model:
+                model["image"]["bits"] = mb
+            if "image" in spec:
+                spec["image"]["bits"] = sb
+        data = params = None
+        with substitutions(d, [e["name"] for e in entries], pi, tz), warnings.catch_warnings():
+            warnings.simplefilter("ignore")
+            try:
+                if call == "detected":
+                    option = pcsv.option_for_path(d)
+                data, params = pcsv.load(d, option=option, full=True)
+                impl = impl_result(data, params, bits=negzero)
+            except Exception as e:
+                impl = {"raises": type(e).__name__, "msg": str(e)[:200]}
+        if "msg" in impl and impl["raises"] == model.get("raises"):
+            impl = {"raises": impl["raises"]}
+        impl, model, spec = blank(impl, und), blank(model, und), blank(spec, und)
+        rep = {**rep, "und": bool(und), "negzero": negzero, "option": option}
+        return impl, model, spec, rep, data, params
 
-        option = None if case["auto"] else {"nu": pcsv.NuOption, "ldr": pcsv.ThermoLDROption, "tofwerk": pcsv.TofwerkOption,
-                                            "generic": pcsv.GenericOption}[vendor]()
+    @staticmethod
+    def out_of_domain(rep):
+        # a stamp that is no valid date / a leap second / a month or day written with one digit (not what the instrument
+        # writes): the property does not say what the import does with such a directory (time.strptime rejects the first
+        # and accepts the others; another parser, or the stamp text as key, may differ), so the import is not judged
+        return not (rep["keys_defined"] and rep["valid_stamps"] and rep["strict_stamps"])
+
+    def evaluate(self, case, ctx):
+        if case["kind"] == "names":
+            return self.eval_names(case, ctx)
+        if case["kind"] == "history":
+            return self.eval_history(case, ctx)
+        import pewlib.io.csv as pcsv
+
+        vendor, entries = case["vendor"], case["entries"]
+        d = ctx.tmpdir() / "lines"
+        d.mkdir()
+        gen_csvdir.write_dir(d, case)
+        lines = [e["name"] for e in entries if e["role"] == "line"]
+        option = None if case["auto"] else OPTION_CLASS(pcsv, vendor)()
         # history: earlier imports through the SAME option object (auto-detection: earlier imports in the same process);
         # what they return or raise is not judged, only the import of the real directory that follows them is
         primers = case.get("primers", [])
@@ -405,16 +499,8 @@ class C04(Prop):
                     pcsv.load(pd, option=option, full=True)
                 except Exception:
                     pass
-        with substitutions(d, [e["name"] for e in entries], case["pi"], case["tz"]), warnings.catch_warnings():
-            warnings.simplefilter("ignore")
-            try:
-                data, params = pcsv.load(d, option=option, full=True)
-                impl = impl_result(data, params)
-            except Exception as e:
-                impl = {"raises": type(e).__name__, "msg": str(e)[:200]}
-        if "msg" in impl and impl["raises"] == model.get("raises"):
-            impl = {"raises": impl["raises"]}
-        impl, model, spec = blank(impl, und), blank(model, und), blank(spec, und)
+        impl, model, spec, rep, _, _ = self.import_once(pcsv, ctx, d, case, "auto" if case["auto"] else "shared", option,
+                                                         case["pi"], case["tz"])
 
         n = len(lines)
         feats = set(case.get("gen_features", [])) | {f"vendor:{vendor}", "n1" if n == 1 else "n2" if n == 2 else "n>=3",
@@ -423,22 +509,174 @@ class C04(Prop):
             feats.add("completion!=submission")
         if lines != rep["order"]:
             feats.add("listing!=acquisition")
-        if und:
+        if rep["und"]:
             feats.add("param-near-rounding-tie")
+        if rep["negzero"]:
+            feats.add("negative-zero-bits")
+        feats |= self.length_features(entries, rep["order"])
         if primers:
             feats.add("history-auto" if case["auto"] else "history-shared-option")
         else:
             feats = {f for f in feats if not f.startswith(("primer-", "two-primers"))}
         empty = not lines
         nontrivial = n >= 2 or any(e["role"] != "line" for e in entries)
-        if not (rep["keys_defined"] and rep["valid_stamps"] and rep["strict_stamps"]):
-            # a stamp that is no valid date / a leap second / a month or day written with one digit (not what the instrument
-            # writes): the property does not say what the import does with such a directory (time.strptime rejects the
-            # first and accepts the others; another parser, or the stamp text as key, may differ), so the case is not judged; whether pewlib does what the model says (ValueError exactly when time.strptime rejects a
-            # stamp) is recorded as a feature only
+        if self.out_of_domain(rep):
+            # whether pewlib does what the model says (ValueError exactly when time.strptime rejects a stamp) is recorded only
             feats.add("stamp-out-of-domain:" + ("model-agrees" if core.canon(impl) == core.canon(model) else "model-differs"))
             return outcome(impl, model, spec, undetermined=True, hyp=False, features=feats if nontrivial else [])
         return outcome(impl, model, spec, undetermined=empty, hyp=rep["hyp"], features=feats if nontrivial else [])
+
+    @staticmethod
+    def length_features(entries, order):
+        """where the shortest line stands in acquisition order"""
+        by = {e["name"]: len(e["rows"]) for e in entries if e["role"] == "line"}
+        ls = [by[nm] for nm in order if nm in by]
+        if len(ls) < 2 or len(set(ls)) == 1:
+            return set()
+        m, out = min(ls), set()
+        if ls.count(m) == 1:
+            i = ls.index(m)
+            out.add("shortest-first" if i == 0 else "shortest-last" if i == len(ls) - 1 else "shortest-middle")
+        return out
+
+    # ------------------------------------------------------------------ histories, every import judged
+    @staticmethod
+    def rewrite_dir(d, dirc, mtime):
+        """the directory at path `d` is emptied (the directory itself stays) and written anew"""
+        if d.exists():
+            for q in list(d.iterdir()):
+                if q.is_dir() and not q.is_symlink():
+                    shutil.rmtree(q)
+                else:
+                    q.unlink()
+        else:
+            d.mkdir()
+        gen_csvdir.write_dir(d, dirc)
+        if mtime == "kept":
+            for q in list(d.iterdir()) + [d]:
+                os.utime(q, ns=(KEPT_MTIME_NS, KEPT_MTIME_NS))
+
+    def eval_history(self, case, ctx, skip_library_edits=False):
+        import numpy as np
+        import pewlib.io.csv as pcsv
+
+        root = ctx.tmpdir()
+        content, shared, dirty, saved = {}, {}, set(), []
+        impl, model, spec, feats = [], [], [], set(case.get("gen_features", [])) | {"history", "tz:" + case["tz"]}
+        hyp, seen, calls, judged = True, [], [], 0
+
+        def edit_option(o, dirc):
+            """what a caller may do to an option object it holds; undone after the history (an object that the library
+            shares between calls must not carry the edit into later cases)"""
+            saved.append((o, {k: (v, list(v) if isinstance(v, list) else dict(v) if isinstance(v, dict) else None)
+                              for k, v in vars(o).items()}))
+            els = [nm for e in dirc["entries"] if e["role"] == "line" for nm in e["names"]]
+            if isinstance(getattr(o, "drop_names", None), list):
+                o.drop_names.extend(els[-2:])
+                if o.drop_names and len(els) % 2:
+                    del o.drop_names[0]
+            if isinstance(getattr(o, "kw_genfromtxt", None), dict):
+                o.kw_genfromtxt["skip_header"] = 1
+                o.kw_genfromtxt["usecols"] = (0,)
+            for flag in ("drop_nan_rows", "drop_nan_columns"):
+                if isinstance(getattr(o, flag, None), bool):
+                    setattr(o, flag, not getattr(o, flag))
+            if hasattr(o, "regex"):
+                o.regex = re.compile(r"never-\d+\.csv")
+            dirty.add(id(o))
+
+        try:
+            for i, st in enumerate(case["steps"]):
+                d = root / st["slot"]
+                if "dir" in st:
+                    self.rewrite_dir(d, st["dir"], st.get("mtime", "natural"))
+                    content[st["slot"]] = st["dir"]
+                dirc = content.get(st["slot"])
+                if dirc is None:  # (a shrunk case: the step that wrote this path is gone)
+                    continue
+                vendor, call = dirc["vendor"], st["call"]
+                nlines = sum(e["role"] == "line" for e in dirc["entries"])
+                pi = [x for x in st["pi"] if x < nlines] + [x for x in range(nlines) if x not in st["pi"]]
+                if call == "auto-nofull":  # not an observation point: the call is made, nothing is judged
+                    with substitutions(d, [e["name"] for e in dirc["entries"]], pi, case["tz"]), warnings.catch_warnings():
+                        warnings.simplefilter("ignore")
+                        try:
+                            pcsv.load(d)
+                        except Exception:
+                            pass
+                    feats.add("call:auto-nofull-unjudged")
+                    continue
+                option = None
+                if call == "shared":
+                    if vendor not in shared or id(shared[vendor]) in dirty:
+                        shared[vendor] = OPTION_CLASS(pcsv, vendor)()
+                    option = shared[vendor]
+                elif call == "fresh":
+                    option = OPTION_CLASS(pcsv, vendor)()
+                im, mo, sp, rep, data, params = self.import_once(pcsv, ctx, d, dirc, call, option, pi, case["tz"])
+                tag = {"step": i, "path": st["slot"], "call": call}
+                if self.out_of_domain(rep) or nlines == 0:
+                    im = mo = sp = {"not-judged": True}
+                else:
+                    judged += 1
+                hyp = hyp and rep["hyp"]
+                impl.append({**tag, **im}), model.append({**tag, **mo}), spec.append({**tag, **sp})
+                feats |= {"call:" + call, "vendor:" + vendor}
+                if rep["und"]:
+                    feats.add("param-near-rounding-tie")
+                if rep["negzero"]:
+                    feats.add("negative-zero-bits")
+                if (st["slot"], vendor) in seen:
+                    feats.add("hist:same-vendor-again")
+                elif any(s == st["slot"] for s, _ in seen):
+                    feats.add("hist:other-vendor-same-path")
+                if call in ("auto", "detected") and any(c in ("auto", "detected") and v != vendor for (_, v), c in zip(seen, calls)):
+                    feats.add("hist:auto-after-auto-other-vendor")
+                seen.append((st["slot"], vendor))
+                calls.append(call)
+                # the caller edits what the call returned
+                for ed in st.get("edits", []):
+                    if ed == "image" and data is not None:
+                        try:
+                            for nm in data.dtype.names or []:
+                                data[nm][...] = -7.25
+                            feats.add("edit:returned-image")
+                        except ValueError:  # a read-only array cannot be edited: nothing to do
+                            pass
+                    elif ed == "params" and isinstance(params, dict):
+                        params.clear()
+                        params.update(scantime=-1.0, spotsize=(9.0, 9.0), junk=[1])
+                        feats.add("edit:returned-params")
+                    elif ed == "own-option" and option is not None and call in ("shared", "fresh"):
+                        edit_option(option, dirc)
+                        feats.add("edit:own-option")
+                    elif ed == "library-option" and not skip_library_edits:
+                        with substitutions(d, [e["name"] for e in dirc["entries"]], pi, case["tz"]):
+                            o = rep["option"] if call == "detected" else pcsv.option_for_path(d)
+                        edit_option(o, dirc)
+                        feats.add("edit:library-option")
+        finally:
+            for o, attrs in reversed(saved):
+                for k, (v, copy) in attrs.items():
+                    if isinstance(v, list):
+                        v[:] = copy
+                    elif isinstance(v, dict):
+                        v.clear()
+                        v.update(copy)
+                    setattr(o, k, v)
+        feats.add(f"history-judged:{min(judged, 4)}")
+        out = outcome({"steps": impl}, {"steps": model}, {"steps": spec}, undetermined=judged == 0, hyp=hyp,
+                      features=feats if judged else [])
+        if not out["spec_ok"] and not skip_library_edits and "edit:library-option" in feats:
+            # The caller changed attributes of the object option_for_path RETURNED.  Whether a later import may see that
+            # (an implementation may hand out one shared instance per vendor) is behaviour no clause of the property
+            # speaks about: if the history agrees with the specification once these edits are left out, the difference
+            # is recorded only.
+            again = self.eval_history(case, ctx, skip_library_edits=True)
+            if again["spec_ok"]:
+                return outcome(out["impl"], out["model"], out["spec"], undetermined=True, hyp=hyp,
+                               features=set(out["features"]) | {"recorded:library-option-edit-visible-later"})
+        return out
 
     def eval_names(self, case, ctx):
         """the model's matchers, filter, sort and the ORDER its sort keys induce against the real option objects.
@@ -562,6 +800,9 @@ class C04(Prop):
                 for i in range(len(ns)):
                     yield {**case, "names": ns[:i] + ns[i + 1:]}
             return
+        if case["kind"] == "history":
+            yield from self.shrink_history(case)
+            return
         ents = case["entries"]
         nlines = sum(e["role"] == "line" for e in ents)
         prs = case.get("primers", [])
@@ -590,6 +831,43 @@ class C04(Prop):
         for i, e in enumerate(ents):
             if e["role"] == "line" and len(e["rows"]) > 2 + first:
                 yield {**case, "entries": ents[:i] + [{**e, "rows": e["rows"][:-1]}] + ents[i + 1:]}
+
+
+    def shrink_history(self, case):
+        steps = case["steps"]
+        for i, st in enumerate(steps):  # drop a step (the directory it wrote goes to the next step on that path)
+            if len(steps) > 1:
+                rest = [dict(x) for x in steps[:i] + steps[i + 1:]]
+                if "dir" in st:
+                    for x in rest[i:]:
+                        if x["slot"] == st["slot"]:
+                            if "dir" not in x:
+                                x["dir"], x["mtime"] = st["dir"], st.get("mtime", "natural")
+                            break
+                yield {**case, "steps": rest}
+        for i, st in enumerate(steps):
+            def put(new):
+                return {**case, "steps": steps[:i] + [new] + steps[i + 1:]}
+            for ed in st.get("edits", []):
+                yield put({**st, "edits": [x for x in st["edits"] if x != ed]})
+            if st.get("mtime") == "kept":
+                yield put({**st, "mtime": "natural"})
+            if st["call"] != "auto":
+                yield put({**st, "call": "auto"})
+            if st["pi"] != sorted(st["pi"]):
+                yield put({**st, "pi": sorted(st["pi"])})
+            if "dir" in st:
+                ents = st["dir"]["entries"]
+                nl = sum(e["role"] == "line" for e in ents)
+                first = 1 if st["dir"]["vendor"] == "ldr" else 0
+                for j, e in enumerate(ents):
+                    if e["role"] != "line" or nl > 1:
+                        yield put({**st, "dir": {**st["dir"], "entries": ents[:j] + ents[j + 1:]}})
+                for j, e in enumerate(ents):
+                    if e["role"] == "line" and len(e["rows"]) > 2 + first:
+                        yield put({**st, "dir": {**st["dir"], "entries": ents[:j] + [{**e, "rows": e["rows"][:-1]}] + ents[j + 1:]}})
+        if case["tz"] != "UTC":
+            yield {**case, "tz": "UTC"}
 
 
 PROP = C04()
